@@ -87,12 +87,12 @@ _SEQ = [0]
 
 
 def _tmpdir():
-    global _TMP
+    """The directory of the generated module files: made by produce() before the workers are
+    forked and removed by it when they are done."""
     if _TMP is None or not os.path.isdir(_TMP):
-        _TMP = tempfile.mkdtemp(prefix="mxv_c20_")
+        raise RuntimeError("no scratch directory (produce() makes it)")
+    if _TMP not in sys.path:
         sys.path.insert(0, _TMP)
-        import atexit
-        atexit.register(shutil.rmtree, _TMP, True)
     return _TMP
 
 
@@ -223,14 +223,22 @@ def _worker_init():
 
 
 def produce(cases, procs=NCPU):
+    global _TMP
     if not cases:
         return []
-    if procs <= 1 or len(cases) < 8:
-        _worker_init()
-        return [run_case(c) for c in cases]
-    ctx = mp.get_context("fork")
-    with ctx.Pool(procs, initializer=_worker_init) as pool:
-        return pool.map(run_case, cases, chunksize=max(1, min(64, len(cases) // (procs * 4))))
+    _TMP = tempfile.mkdtemp(prefix="mxv_c20_")
+    try:
+        if procs <= 1 or len(cases) < 8:
+            _worker_init()
+            return [run_case(c) for c in cases]
+        ctx = mp.get_context("fork")
+        with ctx.Pool(procs, initializer=_worker_init) as pool:
+            return pool.map(run_case, cases, chunksize=max(1, min(64, len(cases) // (procs * 4))))
+    finally:
+        if _TMP in sys.path:
+            sys.path.remove(_TMP)
+        shutil.rmtree(_TMP, ignore_errors=True)
+        _TMP = None
 
 
 # ---------------------------------------------------------------------------
@@ -305,6 +313,9 @@ def model_check(cfg, seed, coverage=False, timeout=3000, workers=NCPU, expect_vi
             res["labels"] = found[-1]
     elif not res["ok"]:
         res["tail"] = r["out"][-1500:]
+    seen = tlc._match_tuples(r["out"], "KFSEEN")
+    if seen:
+        res["kf_labels_reached"] = sorted(tlc.tla_to_py(seen[-1])[1])
     if coverage:
         taken = {}
         for a in MODEL_ACTIONS:
@@ -486,11 +497,11 @@ def _inv_label(inv):
 TIERS = {
     "quick": dict(mbt="MBT_MxFormula_quick.cfg",
                   mc=[dict(cfg="MC_MxFormula_quick.cfg", coverage=True, workers=6),
-                      dict(cfg="MC_MxFormula_kf.cfg", workers=2)]),
+                      dict(cfg="MC_MxFormula_kf.cfg", workers=1)]),
     "thorough": dict(mbt="MBT_MxFormula_thorough.cfg",
                      mc=[dict(cfg="MC_MxFormula_thorough.cfg", workers=8),
                          dict(cfg="MC_MxFormula_deep.cfg", coverage=True, workers=6),
-                         dict(cfg="MC_MxFormula_kf.cfg", workers=2)]),
+                         dict(cfg="MC_MxFormula_kf.cfg", workers=1)]),
 }
 
 
@@ -570,9 +581,9 @@ def run(pid, tier, seed):
     for r in mcs:
         if r["cfg"] == "MC_MxFormula_kf.cfg":
             kf_design = r
-            r["expected"] = "violated (the known findings are counterexamples of the design as it is)"
-            if r.get("violated_invariant") != "Inv_NoKnownFinding":
-                r["note"] = "the model no longer exhibits a known finding on this sample"
+            r["purpose"] = "which known findings the design as modelled exhibits (register of KF labels)"
+            if not r["ok"]:
+                failures.append("design-level known-finding run did not complete cleanly: %s" % r.get("tail", "")[-300:])
             continue
         if r.get("violated_invariant"):
             lab = _inv_label(r["violated_invariant"])
@@ -681,7 +692,8 @@ def run(pid, tier, seed):
         "trace_states": stats["states"],
         "labels_raised": dict(labels_seen),
         "known_finding_labels": dict(kf_seen),
-        "known_findings_at_design_level": (kf_design or {}).get("labels", ""),
+        "known_findings_at_design_level": (kf_design or {}).get("kf_labels_reached", []),
+        "known_findings_on_code_not_in_design": sorted(set(kf_seen) - set((kf_design or {}).get("kf_labels_reached", []))),
         "drift": drift,
         "impl_model_agreement": {"agree": agree, "of": len(traces)},
         "negative_controls": nc,
